@@ -398,6 +398,8 @@ class Target:
         for c in self.connections.values():
             if (c.serial, c.vendor, c.orig_serial) == (serial, vendor, orig_serial):
                 self.event("C10/duplicate-forward-open", "Forward Open for a connection triple that is already open")
+                self.refused.append((kind, 0x01))
+                self.fo_log[-1] = (kind, size, False, fr.session)
                 return W.build_mr_reply(req.service, 0x01, [0x0100], struct.pack("<HHI", serial, vendor, orig_serial) + b"\x00\x00")
         cid = self.policy.conn_ids[self._conn_i % len(self.policy.conn_ids)]
         self._conn_i += 1
